@@ -37,6 +37,7 @@ PROPS = {
     "C08": ("storewalk", 16, 600, 3600),
     "C13": ("storewalk", 16, 600, 3600),
     "C05": ("crashwalk", 16, 600, 3600),
+    "C17": ("crashwalk", 16, 600, 3600),
 }
 
 LEVEL = "model_checking"
